@@ -166,7 +166,7 @@ func ClassifyC02(c C02Case) ev.Class {
 		}
 	}
 	sort.Strings(labels)
-	return ev.Class{NonTrivial: interesting && len(c.Tree.Fields) > 0, Key: fmt.Sprintf("%s|%s|%s|%d|%d|%d", Programs[sb.Prog].Text, sb.IDLName, c.Tree.Canon(), c.Rot, len(c.Unknown), c.DropRequired) + c.Proto, Labels: uniqStr(labels)}
+	return ev.Class{NonTrivial: interesting && len(c.Tree.Fields) > 0, Key: fmt.Sprintf("%s|%s|%s|%d|%d|%d", Programs[sb.Prog].Hash, sb.IDLName, c.Tree.Canon(), c.Rot, len(c.Unknown), c.DropRequired) + c.Proto, Labels: uniqStr(labels)}
 }
 
 func uniqStr(s []string) []string {
